@@ -60,9 +60,16 @@ def run_item(it):
         for backend in DC.BACKENDS:
             # static: the generated program
             try:
+                gargs = [x.copy() for x in ins]
+                gbefore = [snapshot(a) for a in gargs]
                 with warnings.catch_warnings():
                     warnings.simplefilter("ignore")
-                    code = getattr(einx, op)(desc, *[x.copy() for x in ins], backend=backend, graph=True, **sizes, **kwobj)
+                    code = getattr(einx, op)(desc, *gargs, backend=backend, graph=True, **sizes, **kwobj)
+                calls += 1
+                # a graph=True request is a pure code query: nothing is executed, not even the documented in-place update
+                if gbefore != [snapshot(a) for a in gargs]:
+                    findings.append({"kind": "graph-request-modified-argument", "op": op, "backend": backend, "arg": [j for j in range(len(gargs)) if gbefore[j] != snapshot(gargs[j])][0], "layout": "contiguous",
+                                     "detail": "graph=True changed an argument (also the *_at target is read-only for a code query)"})
                 prog = astform.program(code)
                 recs.append({"params": prog["params"], "allowed": [prog["params"][0]] if target_ok and prog["params"] else [], "stmts": prog["stmts"],
                              "meta": {"desc": desc, "op": op, "backend": backend, "code": code}})
